@@ -6,7 +6,7 @@
 (* so each line is one evaluation; a failed clause prints CASEFAIL with    *)
 (* the name of the clause.                                                 *)
 (***************************************************************************)
-EXTENDS BinaryFormat
+EXTENDS TextView
 
 Rec == ndJsonDeserialize(IOEnv.TRACE)
 Dialect == IOEnv.DIALECT
@@ -52,6 +52,10 @@ CheckCase ==
                 /\ Clause("method-" \o Modes[k],
                           \A i \in 1..(Len(M(Modes[k]).file.chunks) - 1) :
                               M(Modes[k]).file.chunks[i].method = Modes[k])
+    \* the repository's debugging decoder reports the structure BinaryWire decodes (TextView.tla; only when logged)
+    /\ \A k \in ModeSet : ("view" \in DOMAIN M(Modes[k]) /\ "file" \in DOMAIN M(Modes[k]) /\ "chunks" \in DOMAIN M(Modes[k]).file) =>
+          LET iss == ViewIssues(M(Modes[k]).file, M(Modes[k]).view) IN
+          IF iss = {} THEN TRUE ELSE Report("textview-" \o Modes[k], iss)
     \* the three compression modes carry byte-identical chunk data
     /\ (ModeSet = 1..3 /\ \A k \in 1..3 : M(Modes[k]).write = "ok" /\ HasFile(Modes[k])) =>
           Clause("same-payload",
